@@ -1,7 +1,9 @@
 //! C14: serialise grammar + state table the way lrpar's ctbuilder does, reconstitute them
 //! the way every generated parser does at start-up, and ask every public query of both.
 //!
-//! case:   `<kind> <hexsrc> <width: 8|16|32> <enc: fix|var> [; <hex token name>* ]*`
+//! case:   `<kind> <hexsrc> <width: 8|16|32> <enc: fix|var> [o|r] [; <hex token name>* ]*`
+//!         (`o` / `r`: run the parses on the originals / the reconstituted objects only — used by the
+//!          check to find out which side does not return when a case hangs)
 //! result: ` # `-separated sections
 //!   `C <width> <enc>` · `BG <hex>` (grammar bytes) · `BS <hex>` (state table bytes) · `NST <n>`
 //!   `O <key> <answer>` … (originals) · `R <key> <answer>` … (reconstituted)
@@ -278,7 +280,7 @@ fn hexb(b: &[u8]) -> String {
 }
 
 macro_rules! run_case {
-    ($T:ty, $kind:expr, $src:expr, $enc:expr, $w:expr, $inputs:expr) => {{
+    ($T:ty, $kind:expr, $src:expr, $enc:expr, $w:expr, $inputs:expr, $mode:expr) => {{
         let built = catch(std::panic::AssertUnwindSafe(|| {
             let grm = YaccGrammar::<$T>::new_with_storaget(yacckind($kind), $src).map_err(|e| {
                 format!("GRMERR {}", e.iter().map(|x| format!("{}", x)).collect::<Vec<_>>().join("; ").replace('\n', " ").replace('#', ""))
@@ -314,7 +316,8 @@ macro_rules! run_case {
                     Ok((gb, sb)) => {
                         let mut o = String::new();
                         write!(o, "C {} {} # BG {} # BS {} # NST {}", $w, $enc, hexb(&gb), hexb(&sb), nstates).unwrap();
-                        let orig = transcript::<$T>(&grm, &st, nstates, &inputs);
+                        let none: Vec<Vec<usize>> = Vec::new();
+                        let orig = transcript::<$T>(&grm, &st, nstates, if $mode == "r" { &none } else { &inputs });
                         for (k, v) in orig.iter() {
                             write!(o, " # O {} {}", k, v).unwrap();
                         }
@@ -339,14 +342,19 @@ macro_rules! run_case {
                                 write!(o, " # RECONPANIC {} # DIFF reconstitute panics", hex(&m)).unwrap();
                             }
                             Ok(pd) => {
-                                let rec = transcript::<$T>(pd.grm(), pd.stable(), nstates, &inputs);
+                                let rec = transcript::<$T>(pd.grm(), pd.stable(), nstates, if $mode == "o" { &none } else { &inputs });
                                 for (k, v) in rec.iter() {
                                     write!(o, " # R {} {}", k, v).unwrap();
                                 }
-                                if orig.len() != rec.len() {
-                                    write!(o, " # DIFF number-of-queries {} {}", orig.len(), rec.len()).unwrap();
+                                let one_sided = $mode == "o" || $mode == "r";
+                                let keep = |t: &Tr| -> Tr {
+                                    t.iter().filter(|(k, _)| !(one_sided && k.starts_with("parse."))).cloned().collect()
+                                };
+                                let (oc, rc) = (keep(&orig), keep(&rec));
+                                if oc.len() != rc.len() {
+                                    write!(o, " # DIFF number-of-queries {} {}", oc.len(), rc.len()).unwrap();
                                 }
-                                for ((k1, v1), (k2, v2)) in orig.iter().zip(rec.iter()) {
+                                for ((k1, v1), (k2, v2)) in oc.iter().zip(rc.iter()) {
                                     if k1 != k2 || v1 != v2 {
                                         write!(o, " # DIFF {} orig={} recon={}:{}", k1, v1, k2, v2).unwrap();
                                     }
@@ -366,18 +374,19 @@ fn main() {
     for_each_case(|line| {
         let mut parts = line.split(';');
         let head: Vec<&str> = parts.next().unwrap().split_whitespace().collect();
-        if head.len() != 4 {
+        if head.len() != 4 && head.len() != 5 {
             return "BADCASE".to_string();
         }
+        let mode = if head.len() == 5 { head[4].to_string() } else { "b".to_string() };
         let kind = head[0].to_string();
         let src = unhex(head[1]);
         let width = head[2].to_string();
         let enc = head[3].to_string();
         let inputs: Vec<Vec<String>> = parts.map(|p| p.split_whitespace().map(unhex).collect()).collect();
         match width.as_str() {
-            "8" => run_case!(u8, &kind, &src, enc.as_str(), 8, inputs),
-            "16" => run_case!(u16, &kind, &src, enc.as_str(), 16, inputs),
-            "32" => run_case!(u32, &kind, &src, enc.as_str(), 32, inputs),
+            "8" => run_case!(u8, &kind, &src, enc.as_str(), 8, inputs, mode.as_str()),
+            "16" => run_case!(u16, &kind, &src, enc.as_str(), 16, inputs, mode.as_str()),
+            "32" => run_case!(u32, &kind, &src, enc.as_str(), 32, inputs, mode.as_str()),
             _ => "BADCASE".to_string(),
         }
     });
